@@ -50,7 +50,7 @@ from jpsim.threads import ThreadSched
 
 PROPERTY = "C09"
 BUDGET = {
-    "quick": {"iter": 12000, "iter_faultfree": 6000, "tasks": 6000, "threads": 10000},
+    "quick": {"iter": 12000, "iter_faultfree": 6000, "tasks": 6000, "threads": 14000},
     "thorough": {"iter": 400000, "iter_faultfree": 150000, "tasks": 150000, "threads": 200000},
 }
 FAULT_KINDS = ["abandon", "cancel", "storeerr", "gc", "repurge", "preempt", "delay"]
@@ -149,8 +149,8 @@ def generate(seed: int, config: str, tier: str) -> Dict[str, Any]:
         opts["p_trip"] = 0.2  # some filters die half-way with the one error family a filter may raise
     opts["p_flat"] = 0.25
     if regex_heavy:
-        opts["p_regex_fn"] = 0.5  # regex-heavy: the function-extension instances are shared by every evaluation
-        opts["p_flat"] = 0.6
+        opts["p_regex_fn"] = 0.7  # regex-heavy: the function-extension instances are shared by every evaluation
+        opts["p_flat"] = 0.8
     # a differently configured environment living in the same process (iterator and thread configurations)
     foreign = None
     if kind != "tasks" and rng.random() < 0.2:
@@ -173,7 +173,7 @@ def generate(seed: int, config: str, tier: str) -> Dict[str, Any]:
     queries: List[str] = core.in_child(_gen_queries) if foreign is not None else _gen_queries()
     envs = [e for e in ENVS if rng.random() < 0.6] or [rng.choice(ENVS)]
     deep = tier == "thorough"  # larger worlds in the thorough tier
-    n_clients = rng.randint(2, 8 if deep else 6) if kind != "threads" else rng.randint(2, 5 if deep else 4)
+    n_clients = rng.randint(2, 8 if deep else 6) if kind != "threads" else rng.randint(3 if regex_heavy else 2, 5 if deep else 4)
     clients: List[List[List[Any]]] = []
     focus = (rng.choice(envs), rng.randrange(len(queries)))
     for _ in range(n_clients):
@@ -200,9 +200,9 @@ def generate(seed: int, config: str, tier: str) -> Dict[str, Any]:
                 elif r < 0.8:
                     script.append(["hot", e, qi, [rng.randrange(len(docs)) for _ in range(rng.randint(1, 3))], ci,
                                    rng.choice([3, 10, (1000 if deep and rng.random() < 0.1 else 100) if rng.random() < 0.3 else 20])])
-                elif r < 0.84:
+                elif r < 0.8:
                     script.append(["recompile", e, qi, di, ci])
-                elif r < 0.87:
+                elif r < 0.83:
                     script.append(["envfind", e, qi, di, ci])
                 elif r < 0.9:
                     script.append(rng.choice([
@@ -226,7 +226,7 @@ def generate(seed: int, config: str, tier: str) -> Dict[str, Any]:
                 if r < 0.22:
                     script.append(["recompile", e, qi, di, ci])
                 elif r < 0.3:
-                    script.append(["compile_many", e, qi, di, ci, rng.choice([5, 40, 40, 140])])
+                    script.append(["compile_many", e, qi, di, ci, rng.choice([5, 5, 12, 40])])
                 elif r < 0.4:
                     script.append(["envfind", e, qi, di, ci])
                 elif r < 0.65:
